@@ -1097,6 +1097,48 @@ def graphreg_cross_check(ctx, report, status):
                                f"real={ri.tolist()} {rs.tolist()} reading={[[str(v) for v in r] for r in wi]} {[[str(v) for v in r] for r in ws]}")
 
 
+    # the WHOLE interval_regularization: segments read from the numpy statements, graph, aggregation
+    try:
+        xb = gen_kernels_regul.extract_borders()
+        xw = gen_kernels_regul.extract_whole()
+    except Exception:  # pylint: disable=broad-except
+        return
+    report.translator_checks += 1
+    for _ in range(ctx.n(120, 1200)):
+        nr, nc = rng.randint(1, 4), rng.randint(1, 9)
+        inf = [[("nan" if rng.random() < 0.1 else Fraction(rng.randint(-6, 6))) for _ in range(nc)] for _ in range(nr)]
+        sup = [[("nan" if rng.random() < 0.1 else Fraction(rng.randint(-6, 6))) for _ in range(nc)] for _ in range(nr)]
+        amb = [[("nan" if rng.random() < 0.08 else Fraction(rng.randint(0, 8), 8)) for _ in range(nc)] for _ in range(nr)]
+        thr = Fraction(rng.randint(0, 8), 8)
+        ksz = rng.choice([1, 3, 3, 5])
+        depth = rng.choice([0, 1, 2, 3])
+        q = rng.choice([Fraction(0), Fraction(1, 4), Fraction(1, 2), Fraction(3, 4), Fraction(1)])
+        toarr = lambda g, dt=np.float32: np.array([[np.nan if v == "nan" else float(v) for v in row] for row in g], dtype=dt)
+        try:
+            with np.errstate(all="ignore"):
+                ri, rs, _ = interval_tools.interval_regularization(toarr(inf), toarr(sup), toarr(amb, np.float64), float(thr), ksz, depth, float(q))
+        except Exception:  # the real function refuses the input (kernel wider than the padded row …): outside the reading  # pylint: disable=broad-except
+            report.count("graphreg_real_raises")
+            continue
+        bl, br = gen_kernels_regul.evaluate_borders(xb, amb, thr, ksz)
+        graph = gen_kernels_regul.evaluate_whole(xw, bl, br, depth)
+        wi, ws = gen_kernels_regul.evaluate_graphreg(x, inf, sup, bl, br, graph, q, nanq)
+        report.count("interval_regularization_translation_calls")
+
+        def same2(want, real):
+            for wr, rr in zip(want, real.tolist()):
+                for w, r in zip(wr, rr):
+                    if (w == "nan") != math.isnan(r) or (w != "nan" and float(np.float32(float(w))) != r):
+                        return False
+            return True
+        if not (same2(wi, ri) and same2(ws, rs)):
+            problems += 1
+            if problems <= 3:
+                status.problem("translator", f"translated interval_regularization evaluates differently from the real function on inf={enc_grid(toarr(inf))} "
+                               f"sup={enc_grid(toarr(sup))} amb={[[str(v) for v in r] for r in amb]} threshold={thr} kernel={ksz} depth={depth} quantile={q}",
+                               f"real={ri.tolist()} {rs.tolist()} reading={[[str(v) for v in r] for r in wi]} {[[str(v) for v in r] for r in ws]} segments={bl} {br}")
+
+
 def run(ctx, report, status):
     translator_cross_check(report, status)
     kernel_cross_check(ctx, report, status)
